@@ -457,3 +457,46 @@ func randBinding(r *Rand) *Binding {
 }
 
 var _ = math.MaxInt64
+
+// logicNest: logic operators (and/or/xor with all their spellings, not) nested directly in one another over boolean
+// leaves only (variables, literals, configuration constants) - the shapes on which nesting reduction, fast marking,
+// reordering and the short-circuit flags interact; no other operator in between
+func logicNest(r *Rand, d int) *GT {
+	leaf := func() *GT {
+		switch r.Intn(8) {
+		case 0:
+			return gconst(r.Bool())
+		case 1:
+			if r.Bool() {
+				return &GT{Kind: "const", Val: true, Name: "KT"}
+			}
+			return &GT{Kind: "const", Val: false, Name: "KF"}
+		default:
+			return gvar(pick(r, boolVars))
+		}
+	}
+	if d <= 0 || r.Intn(5) == 0 {
+		return leaf()
+	}
+	n := 2 + r.Intn(3)
+	ch := make([]*GT, n)
+	for i := range ch {
+		if r.Intn(3) == 0 {
+			ch[i] = leaf()
+		} else {
+			ch[i] = logicNest(r, d-1)
+		}
+	}
+	switch r.Intn(10) {
+	case 0, 1, 2:
+		return gop(pick(r, andNames), ch...)
+	case 3, 4, 5:
+		return gop(pick(r, orNames), ch...)
+	case 6, 7:
+		return gop("xor", ch...)
+	case 8:
+		return gop(pick(r, notNames), ch[0])
+	default:
+		return gop(pick(r, eqNames), ch[0], ch[1])
+	}
+}
